@@ -754,7 +754,15 @@ func c07Corpus(prop string) func() []any {
 		}
 		finalCursorAhead := &c07Input{Prop: prop, First: 2, Kept: 5, Bundle: 4, Root: lag(2), Arrival: arr3, A0: 12, HubStart: 6, Merged: 8,
 			Mode: "cursor", Start: 2, Filter: "final", CurAhead: 2, KSel: 9, Shape: "corpus/final-only-cursor-ahead-of-hub-lib"}
-		return []any{joinOnFork, finalAboveLib, finalCursorAhead}
+		// the join-on-fork world in TARGET-cursor mode with the target cursor below the join point (it "has already passed"):
+		// the hub then answers as for a block number, and the join must be made on the block's identity there too
+		// (found by the proof of c07_seamless_target_nu: hypothesis files_on_hub, theorem c07_target_join_by_number_refuted).
+		// Cursor {New, block 8} (ksel 5) and {New, block 13} (ksel 10) of the reference stream
+		targetJoinOnFork8 := &c07Input{Prop: prop, First: 2, Kept: 5, Bundle: 10, Root: b(2), Arrival: arr, A0: 11, HubStart: 12, Merged: 20,
+			Mode: "target", Start: 5, KSel: 5, Filter: "default", Pauses: []c07Pause{{After: 10, Push: 2}, {After: 12, Push: 8}}, Shape: "corpus/target-join-on-fork"}
+		targetJoinOnFork13 := &c07Input{Prop: prop, First: 2, Kept: 5, Bundle: 10, Root: b(2), Arrival: arr, A0: 11, HubStart: 12, Merged: 20,
+			Mode: "target", Start: 5, KSel: 10, Filter: "default", Pauses: []c07Pause{{After: 10, Push: 2}, {After: 12, Push: 8}}, Shape: "corpus/target-join-on-fork"}
+		return []any{joinOnFork, finalAboveLib, finalCursorAhead, targetJoinOnFork8, targetJoinOnFork13}
 	}
 }
 
